@@ -10,7 +10,7 @@ def build(chk):
     centroiders.obligations(chk)
     chk.bounded_native("brightest_pixel: single pixel, stack = frame, positive scaling (numpy.sort order statistics are outside the encoding)", "brightest", "stacks 3x6x8 and 4x5x5, fractions 0.1, 0.3, 0.75", "aotools/image_processing/centroiders.py:brightest_pixel")
     chk.bounded_native("shift equivariance of centre_of_gravity / brightest_pixel", "shift", "16x18 frames, shifts (0,0),(3,2),(1,5)", "aotools/image_processing/centroiders.py:centre_of_gravity,brightest_pixel")
-    chk.bounded_native("correlation centroid: displaced by s from the array centre for any padding", "correlation", "shapes 10x10, 10x16, 12x8, padding 1..3, three displacements", "aotools/image_processing/centroiders.py:correlation_centroid,cross_correlate")
+    chk.bounded_native("correlation centroid: displaced by s from the array centre for any padding", "correlation", "even shapes 10x10, 10x16, 12x8 (padding 1..3) and odd shapes 9x9, 11x7, 9x12, 7x10 (padding 1..4), three displacements", "aotools/image_processing/centroiders.py:correlation_centroid,cross_correlate")
     chk.notes.append("requires for the scale / stack clauses: the image sum is non-zero (division), threshold in (0,1), min_threshold >= 0 scaled with the image")
 
 
